@@ -93,11 +93,11 @@ def _index_exit_value(f, ps):
 
 
 def run_paths(f, klen, word_args=()):
-    ex = irx.Exec(f, mode.Handler(klen), mode.havoc_state(klen // 32), word_args=word_args, auto=True)
+    ex = irx.Exec(f, mode.Handler(klen), mode.havoc_state(klen // 32), word_args=word_args, auto=True, unrotate=True)
     ps = ex.run()
     eq = _index_exit_value(f, ps)
     if eq:
-        ex = irx.Exec(f, mode.Handler(klen), mode.havoc_state(klen // 32), word_args=word_args, auto=True, exit_eq=eq)
+        ex = irx.Exec(f, mode.Handler(klen), mode.havoc_state(klen // 32), word_args=word_args, auto=True, exit_eq=eq, unrotate=True)
         ps = ex.run()
     for p in ps:
         if any(e[0] == "cond-data" for e in p.events):
